@@ -4,6 +4,7 @@ package enum
 
 import (
 	"fmt"
+	"time"
 	"sort"
 )
 
@@ -77,6 +78,26 @@ func Try(f func()) (panicked bool, msg string) {
 	}()
 	f()
 	return
+}
+
+// TryTimeout is Try with a watchdog: a call that does not return within limit is abandoned (its
+// goroutine keeps running: the caller must end the process soon, a runaway helper may be allocating).
+func TryTimeout(limit time.Duration, f func()) (panicked bool, msg string, timedOut bool) {
+	type res struct {
+		p bool
+		m string
+	}
+	ch := make(chan res, 1)
+	go func() {
+		p, m := Try(f)
+		ch <- res{p, m}
+	}()
+	select {
+	case r := <-ch:
+		return r.p, r.m, false
+	case <-time.After(limit):
+		return false, "", true
+	}
 }
 
 // Choices is the choice-only explorer: Run calls body once per complete choice
